@@ -58,6 +58,10 @@ pub fn scratch_dir() -> std::path::PathBuf {
     let base = std::env::var_os("VERIF_EMIT_DIR").map(std::path::PathBuf::from).unwrap_or_else(std::env::temp_dir);
     base.join(format!("pyxis-emit-{}", std::process::id()))
 }
+fn emit_checked(ptr: usize, st: &ResolvedSemanticState, mods: &[(&str, String)], dir: &std::path::Path) -> emit::Emitted {
+    emit::POINTER_SIZE.with(|p| p.set(Some(ptr)));
+    emit::emit_and_check(st, mods, dir)
+}
 fn join_sources(mods: &[(&str, String)]) -> String {
     if mods.len() == 1 { return mods[0].1.clone(); }
     mods.iter().map(|(k, s)| format!("// ---- module {k}\n{s}")).collect::<Vec<_>>().join("\n")
@@ -70,7 +74,7 @@ fn sample_emit(mods: &[(&str, String)], ptr: usize, st: &ResolvedSemanticState) 
         c.1 % c.0 == 0 && c.2.len() < 200
     });
     if !due { return; }
-    let e = emit::emit_and_check(st, mods, &scratch_dir());
+    let e = emit_checked(ptr, st, mods, &scratch_dir());
     EMIT_SAMPLE.with(|c| {
         let mut c = c.borrow_mut();
         for x in e.viols { c.2.push((join_sources(mods), ptr, x)); }
@@ -799,7 +803,7 @@ fn emit_family(prop: &str, out: &mut Vec<Fail>) -> usize {
         for (_label, mods) in emit_corpus::corpus() {
             n += 1;
             if let Outcome::Ok(st) = build_modules(&mods, ptr) {
-                let e = emit::emit_and_check(&st, &mods, &dir);
+                let e = emit_checked(ptr, &st, &mods, &dir);
                 for x in &e.viols { emit_fail(out, prop, join_sources(&mods), ptr, x); }
             }
         }
@@ -808,7 +812,7 @@ fn emit_family(prop: &str, out: &mut Vec<Fail>) -> usize {
                 n += 1;
                 let (ma, mb) = (vec![("m", a.clone())], vec![("m", b.clone())]);
                 if let (Outcome::Ok(sa), Outcome::Ok(sb)) = (build_modules(&ma, ptr), build_modules(&mb, ptr)) {
-                    let (ea, eb) = (emit::emit_and_check(&sa, &ma, &dir), emit::emit_and_check(&sb, &mb, &dir));
+                    let (ea, eb) = (emit_checked(ptr, &sa, &ma, &dir), emit_checked(ptr, &sb, &mb, &dir));
                     if ea.files != eb.files {
                         out.push(Fail { family: "emit", input: format!("{a}\n// ---- rewritten ({what})\n{b}"), ptr, expected: "byte-identical output".into(), actual: first_diff(ea.files.get("m"), eb.files.get("m")) });
                     }
@@ -819,7 +823,7 @@ fn emit_family(prop: &str, out: &mut Vec<Fail>) -> usize {
             for (what, key, a, b) in emit_corpus::unrelated_pairs() {
                 n += 1;
                 if let (Outcome::Ok(sa), Outcome::Ok(sb)) = (build_modules(&a, ptr), build_modules(&b, ptr)) {
-                    let (ea, eb) = (emit::emit_and_check(&sa, &a, &dir), emit::emit_and_check(&sb, &b, &dir));
+                    let (ea, eb) = (emit_checked(ptr, &sa, &a, &dir), emit_checked(ptr, &sb, &b, &dir));
                     if ea.files.get(key) != eb.files.get(key) || ea.files.get(key).is_none() {
                         out.push(Fail { family: "emit", input: format!("{}\n// ==== changed input set ({what}); observed module `{key}`\n{}", join_sources(&a), join_sources(&b)), ptr, expected: format!("output of module `{key}` byte-identical"), actual: first_diff(ea.files.get(key), eb.files.get(key)) });
                     }
@@ -886,6 +890,25 @@ fn fs_family(prop: &str, out: &mut Vec<Fail>) -> usize {
                     if prop == "C14" && got != want { out.push(Fail { family: "fs", input, ptr: 8, expected: format!("exactly one output file per input module at the same relative path: {want:?}"), actual: format!("{got:?}") }); }
                 }
             }
+        }
+        // "parse errors identify the file, line and column": a stray token at a known position
+        if *label == "flat" && prop == "C12" {
+            let bad = ind.join("broken.pyxis");
+            let _ = std::fs::write(&bad, "pub type A {\n    pub a: u32,\n    pub b ! u32,\n}\n");
+            let r = catch_unwind(AssertUnwindSafe(|| { let mut st = SemanticState::new(8); st.add_file(&ind, &bad).map(|_| ()) }));
+            n += 1;
+            let input = "add_file on `pub type A {\\n    pub a: u32,\\n    pub b ! u32,\\n}` (stray `!` at line 3, column 11)".to_string();
+            match r {
+                Err(_) => out.push(Fail { family: "fs", input, ptr: 8, expected: "an error value".into(), actual: "PANIC".into() }),
+                Ok(Ok(())) => out.push(Fail { family: "fs", input, ptr: 8, expected: "a parse error".into(), actual: "accepted".into() }),
+                Ok(Err(e)) => {
+                    let m = format!("{e:#}");
+                    if !(m.contains("broken.pyxis") && m.contains(":3:11")) {
+                        out.push(Fail { family: "fs", input, ptr: 8, expected: "an error naming broken.pyxis:3:11".into(), actual: m });
+                    }
+                }
+            }
+            let _ = std::fs::remove_file(&bad);
         }
         // a file that is not below the base directory is an error, not a panic
         let outside = base.join("types").join(files[0].0);
@@ -988,7 +1011,7 @@ fn main() {
             let o = build_modules(&mods, ptr);
             println!("{}", o.tag());
             if let Outcome::Ok(st) = &o {
-                let e = emit::emit_and_check(st, &mods, &scratch_dir());
+                let e = emit_checked(ptr, st, &mods, &scratch_dir());
                 for (k, t) in &e.files { println!("// ==== {k}.rs\n{t}"); }
                 for x in &e.viols { println!("BACKEND-CHECK {:?} {}", x.props, x.what); }
             }
